@@ -176,17 +176,15 @@ def kernel_correspond(ctx, res):
             queries.append(rng.choice(["/", "/", "/", ""]) + "/".join(comps) + rng.choice(["", "", "/"]))
         keep = []
         for q in queries:
-            # stay inside T: the model's "/" holds T only, the real one holds the machine
-            depth, ok = 3, True
-            for c in (root_model[2:] + q).split("/")[3:]:
-                pass
-            d = 3
-            for c in q.split("/"):
+            # stay inside T: the model's "/" holds T only, the real one holds the machine.  Depth is counted on the whole
+            # path root + selector (a selector without a leading slash extends the root's last component)
+            ok, d = True, 0
+            for c in (root_model + q).split("/"):
                 if c == "..":
                     d -= 1
                 elif c not in ("", "."):
                     d += 1
-                if d < 0:
+                if d < 1 and c not in ("",):
                     ok = False
             if ok and "\0" not in q:
                 keep.append(q)
